@@ -376,4 +376,171 @@ theorem box_pref_when_fits {hz : Bool} {vw vh : Int} {olds : List ViewPort} {cs 
 
 end geometry
 
+/-! ## BoxLayout: distribution of the surplus (exact arithmetic)
+
+The share computation instantiated with `Rat`.  The one property of the number type that is used is the floor
+property `ratTrunc_floor_prop` (`trunc q ≤ q < trunc q + 1` for `q ≥ 0`), proved in Tcell.Lemmas.Views; for
+float64 the corresponding facts are monitored on the real code by the `box` oracle (exact sum, share ± 1). -/
+
+section shares
+open LayoutNum
+
+/-- the surplus: view extent minus the sum of the preferred extents, at least 0 (boxlayout.go:58-61) -/
+def surplus (avail used : Int) : Int := if avail - used < 0 then 0 else avail - used
+
+/-- **Exact distribution.**  With non-negative fill factors of which at least one is positive, the paddings
+add up to the surplus exactly — cell for cell —, every padding is non-negative and at least the integer part of
+the proportional share `surplus · fill_i / Σ fill`, and cells with fill 0 … see `pads_no_fill_cell`.
+(The `best == nil` dereference of boxlayout.go:89 is never reached: `best_some`.) -/
+theorem pads_total (avail used : Int) (fills : List Rat) (hf : ∀ f ∈ fills, 0 ≤ f) (hpos : ∃ f ∈ fills, 0 < f) :
+    (pads avail used fills).length = fills.length ∧
+    sumInt (pads avail used fills) = surplus avail used ∧
+    ∀ (i : Nat) (p : Int), (pads avail used fills)[i]? = some p →
+      ∃ f, fills[i]? = some f ∧ (share (surplus avail used) (totFill fills) f).floor ≤ p ∧ 0 ≤ p := by
+  have hex : 0 ≤ surplus avail used := by unfold surplus; split <;> omega
+  generalize hE : surplus avail used = extra at *
+  have hsum := totFill_eq_sum fills
+  have ht : 0 < totFill fills := by rw [hsum]; exact sum_pos_rat fills hf hpos
+  have hne : totFill fills ≠ 0 := by grind
+  have heq : LayoutNum.eq (totFill fills) (LayoutNum.zero : Rat) = false := by
+    show decide (totFill fills = 0) = false
+    simpa using hne
+  have hcellspec : ∀ f ∈ fills, (shareCell extra (totFill fills) f).pad = (share extra (totFill fills) f).floor ∧
+      (shareCell extra (totFill fills) f).fill = f :=
+    fun f hm => shareCell_spec extra _ f hex ht (hf f hm)
+  have hcells : ∃ c ∈ fills.map (shareCell extra (totFill fills)), LayoutNum.eq c.fill (LayoutNum.zero : Rat) = false := by
+    obtain ⟨f, hm, h0⟩ := hpos
+    refine ⟨_, List.mem_map_of_mem hm, ?_⟩
+    rw [(hcellspec f hm).2]
+    show decide (f = 0) = false
+    have : f ≠ 0 := by grind
+    simpa using this
+  have hps : psum (fills.map (shareCell extra (totFill fills))) =
+      sumInt ((fills.map (share extra (totFill fills))).map Rat.floor) := by
+    unfold psum
+    congr 1
+    simp only [List.map_map]
+    apply List.map_congr_left
+    intro f hm
+    exact (hcellspec f hm).1
+  have hle : psum (fills.map (shareCell extra (totFill fills))) ≤ extra := by
+    have h1 := floors_le_sum (fills.map (share extra (totFill fills)))
+    rw [sum_shares, ← hsum, Rat.mul_div_cancel hne, ← hps] at h1
+    exact Rat.intCast_le_intCast.1 h1
+  have hpads : pads avail used fills =
+      (distribute (extra - psum (fills.map (shareCell extra (totFill fills)))).toNat
+        (fills.map (shareCell extra (totFill fills)))).map (·.pad) := by
+    simp only [pads, psum, ← hE, surplus, heq, Bool.false_eq_true, if_false]
+  obtain ⟨dl, dp, _, dge⟩ := distribute_spec (extra - psum (fills.map (shareCell extra (totFill fills)))).toNat
+    (fills.map (shareCell extra (totFill fills))) hcells
+  refine ⟨?_, ?_, ?_⟩
+  · rw [hpads, List.length_map, dl, List.length_map]
+  · rw [hpads]
+    have : sumInt (List.map (fun c => c.pad) (distribute (extra - psum (fills.map (shareCell extra (totFill fills)))).toNat
+        (fills.map (shareCell extra (totFill fills))))) = psum (distribute (extra - psum (fills.map (shareCell extra (totFill fills)))).toNat
+        (fills.map (shareCell extra (totFill fills)))) := rfl
+    rw [this, dp]; omega
+  · intro i p hi
+    rw [hpads, List.getElem?_map] at hi
+    cases hc' : (distribute (extra - psum (fills.map (shareCell extra (totFill fills)))).toNat
+        (fills.map (shareCell extra (totFill fills))))[i]? with
+    | none => simp [hc'] at hi
+    | some c' =>
+      simp [hc'] at hi
+      obtain ⟨c, hc, hle'⟩ := dge i c' hc'
+      rw [List.getElem?_map] at hc
+      cases hfi : fills[i]? with
+      | none => simp [hfi] at hc
+      | some f =>
+        simp [hfi] at hc
+        have hm := List.mem_of_getElem? hfi
+        have hpad := (hcellspec f hm).1
+        have hs0 := share_nonneg extra (totFill fills) f hex ht (hf f hm)
+        have hfl : 0 ≤ (share extra (totFill fills) f).floor := Rat.le_floor_iff.2 (by simpa using hs0)
+        refine ⟨f, rfl, ?_, ?_⟩ <;> (rw [← hc] at hle'; omega)
+
+/-- Without any positive fill factor nothing is distributed: every padding is 0 (children keep exactly their
+preferred extent, boxlayout.go:63-65). -/
+theorem pads_no_fill (avail used : Int) (fills : List Rat) (h0 : ∀ f ∈ fills, f = 0) :
+    ∀ p ∈ pads avail used fills, p = 0 := by
+  have hsum : totFill fills = 0 := by
+    rw [totFill_eq_sum]
+    have h1 := sum_nonneg_rat fills (fun f hm => by rw [h0 f hm]; exact Rat.le_refl)
+    have h2 : fills.sum ≤ 0 := by
+      have : ∀ (l : List Rat), (∀ f ∈ l, f = 0) → l.sum = 0 := by
+        intro l; induction l with
+        | nil => intro _; rfl
+        | cons a l ih =>
+          intro h
+          simp only [List.sum_cons, h a List.mem_cons_self, ih (fun f hm => h f (List.mem_cons_of_mem _ hm))]
+          grind
+      rw [this fills h0]; exact Rat.le_refl
+    exact Rat.le_antisymm h2 h1
+  have heq : LayoutNum.eq (totFill fills) (LayoutNum.zero : Rat) = true := by
+    show decide (totFill fills = 0) = true
+    simpa using hsum
+  have hcell : ∀ f ∈ fills, (shareCell (surplus avail used) (totFill fills) f).pad = 0 := by
+    intro f hm; rw [h0 f hm]; exact (shareCell_zero _ _).1
+  have hps : psum (fills.map (shareCell (surplus avail used) (totFill fills))) = 0 := by
+    unfold psum
+    simp only [List.map_map]
+    have : ∀ (l : List Rat), (∀ f ∈ l, (shareCell (surplus avail used) (totFill fills) f).pad = 0) →
+        sumInt (l.map ((fun c => c.pad) ∘ shareCell (surplus avail used) (totFill fills))) = 0 := by
+      intro l; induction l with
+      | nil => intro _; rfl
+      | cons a l ih =>
+        intro h
+        simp only [List.map_cons, sumInt_cons, Function.comp, h a List.mem_cons_self]
+        have := ih (fun f hm => h f (List.mem_cons_of_mem _ hm))
+        omega
+    exact this fills hcell
+  have hpads : pads avail used fills = (fills.map (shareCell (surplus avail used) (totFill fills))).map (·.pad) := by
+    have h0' : (0 : Int) - psum (fills.map (shareCell (surplus avail used) (totFill fills))) = 0 := by rw [hps]; rfl
+    simp only [pads, heq, if_true]
+    show (distribute ((0 : Int) - psum (fills.map (shareCell (surplus avail used) (totFill fills)))).toNat _).map _ = _
+    rw [h0']; rfl
+  intro p hp
+  rw [hpads] at hp
+  simp only [List.map_map, List.mem_map] at hp
+  obtain ⟨f, hm, rfl⟩ := hp
+  exact hcell f hm
+
+/-- Consequence used by the geometry theorems: with non-negative fill factors every padding is non-negative. -/
+theorem pads_nonneg (avail used : Int) (fills : List Rat) (hf : ∀ f ∈ fills, 0 ≤ f) :
+    ∀ p ∈ pads avail used fills, 0 ≤ p := by
+  intro p hp
+  by_cases hpos : ∃ f ∈ fills, 0 < f
+  · obtain ⟨i, hi⟩ := List.getElem?_of_mem hp
+    obtain ⟨_, _, _, h⟩ := (pads_total avail used fills hf hpos).2.2 i p hi
+    exact h
+  · have h0 : ∀ f ∈ fills, f = 0 := by
+      intro f hm
+      have h1 := hf f hm
+      have h2 : ¬ 0 < f := fun h => hpos ⟨f, hm, h⟩
+      grind
+    rw [pads_no_fill avail used fills h0 p hp]; exact Int.le_refl 0
+
+/-- **Proportionality, lower half (partial).**  What is proved of "in proportion to the fill factors": every
+child receives at least the integer part of its exact share and the total is exact (`pads_total`), hence at most
+`#children − 1` cells in total are handed out by the largest-remainder pass.  NOT proved here: the upper
+bound `pad_i ≤ ⌊share_i⌋ + 1` (no child is picked twice by the pass; it needs the maximality of `best` together
+with `Σ frac_i = resid < #{frac_i > 0}`).  The `box` oracle checks `|pad_i − share_i| < 1` on the real code for
+every generated layout, and the model is compared with the code bit for bit. -/
+theorem pads_proportional_partial (avail used : Int) (fills : List Rat) (hf : ∀ f ∈ fills, 0 ≤ f)
+    (hpos : ∃ f ∈ fills, 0 < f) (i : Nat) (p : Int) (hi : (pads avail used fills)[i]? = some p) :
+    ∃ f, fills[i]? = some f ∧
+      ((share (surplus avail used) (totFill fills) f).floor : Int) ≤ p ∧
+      share (surplus avail used) (totFill fills) f - 1 < (p : Rat) := by
+  obtain ⟨f, hfi, hfl, _⟩ := (pads_total avail used fills hf hpos).2.2 i p hi
+  refine ⟨f, hfi, hfl, ?_⟩
+  have h1 := Rat.lt_floor (x := share (surplus avail used) (totFill fills) f)
+  have h2 : ((share (surplus avail used) (totFill fills) f).floor : Rat) ≤ (p : Rat) := Rat.intCast_le_intCast.2 hfl
+  grind
+
+example : pads 10 4 [(1 : Rat), 1, 2] = [2, 1, 3] := by decide +kernel
+example : pads 10 4 [(0 : Rat), 0] = [0, 0] := by decide +kernel
+example : pads 3 9 [(1 : Rat), 2] = [0, 0] := by decide +kernel
+
+end shares
+
 end Tcell.Props.C20
